@@ -71,12 +71,120 @@ package hashmap
 // entry-slice helpers: all slice bounds in range, result length as expected
 //@ func withoutEntry
 //@   props C07
+//@   nowrite
 //@   requires len(entries) >= 1 && idx < len(entries)
 //@   ensures len(result) == len(entries) - 1
 //@   ensures fresh(result)
 
 //@ func replaceEntry
 //@   props C07
+//@   nowrite
 //@   requires i < len(entries)
 //@   ensures len(result) == len(entries)
 //@   ensures fresh(result)
+
+// ---------------------------------------------------------------------------
+// C07, immutability frame (`nowrite`): assoc / dissoc / find on any node of the
+// trie - and the map operations built on them - never store into an object that
+// existed before the call; they only fill nodes, entry slices and map headers
+// they allocated themselves. The key functions supplied by the user of the map
+// are assumed pure.
+
+//@ func Equal
+//@   pure
+//@ func Hash
+//@   pure
+
+// interface-level contracts: every implementation is checked against `nowrite`
+//@ func node.assoc
+//@   nowrite
+//@ func node.without
+//@   nowrite
+//@ func node.find
+//@   nowrite
+
+//@ func hashMap.Assoc
+//@   props C07
+//@   nosafety
+//@   nowrite
+//@ func hashMap.Dissoc
+//@   props C07
+//@   nosafety
+//@   nowrite
+//@ func hashMap.Index
+//@   props C07
+//@   nosafety
+//@   nowrite
+
+//@ func arrayNode.withNewChild
+//@   props C07
+//@   nosafety
+//@   nowrite
+//@   ensures fresh(result)
+//@ func arrayNode.assoc
+//@   props C07
+//@   nosafety
+//@   nowrite
+//@ func arrayNode.without
+//@   props C07
+//@   nosafety
+//@   nowrite
+//@ func arrayNode.pack
+//@   props C07
+//@   nosafety
+//@   nowrite
+//@   loop 1 invariant fresh(newNode.entries)
+//@ func arrayNode.find
+//@   props C07
+//@   nosafety
+//@   nowrite
+
+//@ func createNode
+//@   props C07
+//@   nosafety
+//@   nowrite
+//@ func bitmapNode.unpack
+//@   props C07
+//@   nosafety
+//@   nowrite
+//@ func bitmapNode.withoutEntry
+//@   props C07
+//@   nosafety
+//@   nowrite
+//@   skip pre:withoutEntry
+//@ func bitmapNode.withReplacedEntry
+//@   props C07
+//@   nosafety
+//@   nowrite
+//@   skip pre:replaceEntry
+//@ func bitmapNode.assoc
+//@   props C07
+//@   nosafety
+//@   nowrite
+//@ func bitmapNode.without
+//@   props C07
+//@   nosafety
+//@   nowrite
+//@ func bitmapNode.find
+//@   props C07
+//@   nosafety
+//@   nowrite
+
+//@ func collisionNode.assoc
+//@   props C07
+//@   nosafety
+//@   nowrite
+//@   skip pre:replaceEntry
+//@ func collisionNode.without
+//@   props C07
+//@   nosafety
+//@   nowrite
+//@   skip pre:withoutEntry
+//@ func collisionNode.find
+//@   props C07
+//@   nosafety
+//@   nowrite
+//@ func collisionNode.findIndex
+//@   props C07
+//@   nosafety
+//@   nowrite
